@@ -1207,7 +1207,26 @@ def r7(ctx):
     ctx.check(P, rule, "only commit (and the constructor) sets the tree signature", not others, "no other method of MerkleTree assigns self.signature", "self.signature is also assigned in %s" % others, key="C09|C09.R7|signature writers")
 
 
-RULES = [r1, r3, r4, r5, r6, r7]
+def r8(ctx):
+    """after a proof was applied the core is still usable: what verify_proof lets replace a held
+    node agrees with it in hash AND size (the comparison clauses of C04.R3) — a lone hash-section
+    node with the genuine hash and a forged size otherwise replaces the stored node, and every
+    later read of that block fails (defect D20)"""
+    from . import c04
+    before = len(ctx.insts)
+    c04.r3(ctx)
+    kept = []
+    for i in ctx.insts[before:]:
+        if "compared" in i.anchor or "mismatch" in i.anchor:
+            i.prop, i.rule = P, "C09.R8"
+            i.key = i.key.replace("C04|C04.R3", "C09|C09.R8")
+            kept.append(i)
+    ctx.insts[before:] = kept
+    if not kept:
+        ctx.missing(P, "C09.R8", "shared clauses of c04.r3", "no instance")
+
+
+RULES = [r1, r3, r4, r5, r6, r7, r8]
 CONTROLS = ["c09_unguarded_index", "c09_loop_cannot_exit"]
 EXPLANATION = ("C09 (no peer request or proof can panic or hang the node): enumerates every panic-capable construct (bounds / subtraction / division asserts, unwrap/expect, Index on Vec/slice, "
                "panic! entry points, RefCell borrows, drain/split/pow) in the call-graph closure of create_proof and verify_and_apply_proof and requires each to be discharged by constant operands "
